@@ -131,7 +131,7 @@ def malformed(rng, o):
     """a malformed variant of a well-formed object section"""
     k = rng.below(4)
     if k == 0 or len(o.data) < 2:
-        return bytes([rng.choice([3, 9, 200]), 1, 6])          # unknown group
+        return bytes([rng.choice([5, 9, 200, 255]), 1, 6])          # unknown group
     if k == 1:
         cuts = [c for c in range(1, len(o.data)) if c not in o.safe_cuts]
         return o.data[:rng.choice(cuts)]                       # truncated inside a header or object
